@@ -50,7 +50,7 @@ def run(ctx):
                 if rnd.random() < 0.85: r[c] = value(rnd)
             recs.append(r)
         data = gen.stream(recs)
-        names = [rnd.choice(['', '=N%d' % j, '=na,me', '=q"t']) for j in range(ncol)]
+        names = [rnd.choice(['', '=N%d' % j, '=na,me', '=q"t', '=x=y', '=é', '=line\nbreak', '==', "='q'"]) for j in range(ncol)]
         sel = ['.%s%s' % (c, nm) for c, nm in zip(cols, names)]
         c = mkcase('V%d' % i, lib.new_cfg(style='csv', select=sel), data); cases.append(c); meta[c['id']] = ('csv', recs, cols, sel)
         # text with options
